@@ -421,6 +421,17 @@ pub mod inner {
                 )
             })
         }
+        /// Returns the linear index of the start of row `y`, or panics if
+        /// `y` is out of bounds. Unlike `to_index_strict(0, y)`, also valid
+        /// for the (empty) rows of a zero-width buffer.
+        #[inline]
+        fn row_index_strict(&self, y: u32) -> usize {
+            let (w, h) = self.dims;
+            if y >= h {
+                panic!("position (x=0, y={y}) out of bounds (0..{w}, 0..{h})");
+            }
+            self.to_index(0, y)
+        }
         /// Returns the linear index corresponding to the coordinates,
         /// or `None` if x or y is out of bounds.
         #[inline]
@@ -660,7 +671,7 @@ pub mod inner {
         fn index(&self, i: usize) -> &[T] {
             // Do not truncate: an index over u32::MAX is out of bounds
             let i = u32::try_from(i).unwrap_or(u32::MAX);
-            let idx = self.to_index_strict(0, i);
+            let idx = self.row_index_strict(i);
             let w = self.dims.0 as usize;
             &self.data[idx..][..w]
         }
@@ -681,7 +692,7 @@ pub mod inner {
         fn index_mut(&mut self, row: usize) -> &mut [T] {
             // Do not truncate: an index over u32::MAX is out of bounds
             let row = u32::try_from(row).unwrap_or(u32::MAX);
-            let idx = self.to_index_strict(0, row);
+            let idx = self.row_index_strict(row);
             let w = self.dims.0 as usize;
             &mut self.data[idx..][..w]
         }
